@@ -48,7 +48,12 @@ def contract_numeric(prog, h):
                 t = source_of(h.fc.fn.node, it, None, None)["terminal"] or ""
                 if not idx_var and (t == "values" or t.endswith(".values")):
                     return NUMERIC_BY_CONTRACT["value"]
-    return NUMERIC_BY_CONTRACT.get(h.src)
+    # by name only inside the chart writers, where these names are the documented numeric inputs (elsewhere a local that
+    # happens to be called `value` says nothing about what it holds)
+    fn_ = h.fc.fn if h.fc is not None else None
+    if fn_ is not None and fn_.module is not None and fn_.module.name.startswith("pptx.chart."):
+        return NUMERIC_BY_CONTRACT.get(h.src)
+    return None
 
 
 def classify(prov, mk):
@@ -62,6 +67,8 @@ def classify(prov, mk):
     origins = prov.origin(h.expr, h.fc)
     labels = {o[0] for o in origins}
     san = h.san
+    if san is not None and san.startswith("broken:"):
+        return "double-escape", labels, "the hand-written escaper applies its replacements in an order that escapes its own output: %s" % san[7:]
     if san is not None and (labels & {"SAN_TEXT", "SAN_ATTR"}):
         wit = [" <- ".join(ch[-3:]) for lab, ch in origins if lab in ("SAN_TEXT", "SAN_ATTR")][:1]
         return "double-escape", labels, "escaped here and already escaped upstream (%s)" % (wit[0] if wit else "")
